@@ -30,7 +30,14 @@ EXCNAME = ["", "AttributeError", "LookupError", "KeyError", "CleanupBoom", "Setu
            "ValueError", "TypeError", "other"]
 MISSING = object()
 
-# (cfg suffix, MaxOps is in the cfg) per tier; every part is one TLC model-checking run
+# every part is one exhaustive TLC run of Context_MC; alphabet and operation budget per prelude depth are in the cfg:
+#   *_quick/_thorough      attribute alphabet (2 names + `failed`, 2 values)          len 2,2,3,2 / 3,3,3,3
+#   *_thorough_attrs4      attribute alphabet with 1 name + `failed`                  len 4 below feature+scenario
+#   *_cleanups             cleanup alphabet (3 callables x raising x bare/args x layer=, 4 fixture kinds)  len 2 / 3
+#   *_thorough_cleanups4   cleanup alphabet without args/fixtures                     len 4 below feature+scenario
+#   *_reduced              1 name, 2 values: push pop set setroot del                 len 5 / 6 from the testrun scope
+#   *_thorough_sim         complete alphabet incl. get/has, -simulate, 50 operations
+# get/has are not separate operations in the exhaustive parts: the probe after EVERY operation does both for all names
 PARTS = {
     "quick": ["Context_MC_quick.cfg", "Context_MC_quick_cleanups.cfg", "Context_MC_quick_reduced.cfg"],
     "thorough": ["Context_MC_thorough.cfg", "Context_MC_thorough_attrs4.cfg", "Context_MC_thorough_cleanups.cfg",
@@ -536,8 +543,8 @@ def run(chk):
     # -----------------------------------------------------------------------------------------------------
 
 
-WORKERS = 4         # TLC workers of the model-checking runs (registered checks may use 16)
-CHUNKS = 4          # parallel judge processes
+WORKERS = 8         # TLC workers of the model-checking runs (registered checks may use 16)
+CHUNKS = 8          # parallel judge processes (one TLC worker each)
 SIM_TRACES = 2000
 
 
